@@ -220,7 +220,7 @@ def check_iter(model, R):
     if gen:
         loops = [n for n in body_walk(it.node) if isinstance(n, ast.For)]
         LEN = ('len(self)', 'self.shape[0]', 'len(self.data)')
-        ok = len(loops) == 1 and norm(loops[0].iter) in tuple('range(%s)' % l for l in LEN) and any(isinstance(y, ast.Yield) and norm(y.value) == 'self[%s]' % norm(loops[0].target) for y in ast.walk(loops[0]))
+        ok = len(loops) == 1 and norm(inline_expr(it.node, loops[0].iter)) in tuple('range(%s)' % l for l in LEN) and any(isinstance(y, ast.Yield) and norm(y.value) == 'self[%s]' % norm(loops[0].target) for y in ast.walk(loops[0]))
         # counter idiom:  i = 0 ; while i < len(self): yield self[i] ; i += 1      (the bound may be hoisted into a local)
         wl = [n for n in body_walk(it.node) if isinstance(n, ast.While)]
         if not ok and len(wl) == 1 and not loops and isinstance(wl[0].test, ast.Compare) and len(wl[0].test.ops) == 1 and isinstance(wl[0].test.ops[0], ast.Lt) and isinstance(wl[0].test.left, ast.Name):
